@@ -363,9 +363,8 @@ class _MessageDB(_Entity):
             # .I 101 --:------ --:------ 12:126457 2309 006 0107D0-0207D0  # is a CTL
             msg_dict = msg.payload[0]
 
-        assert (not domain_id and not zone_idx) or (
-            msg_dict.get(idx) == val
-        ), f"{msg_dict} < Coding error: key={idx}, val={val}"
+        if (domain_id or zone_idx) and msg_dict.get(idx) != val:
+            return None  # the (latest) msg of this code is for another zone/domain
 
         if key:
             return msg_dict.get(key)
